@@ -377,3 +377,26 @@ func TestC08_ColdConcurrent(t *testing.T) {
 		}
 	}
 }
+
+// c08.idle (thorough tier only): the word -> index direction after the process has made no call
+// for 200 s (indexes released by an idle timer must come back).
+var c08IdleCheck = register("C08", "c08.idle", coldCheck("C08"))
+
+func TestC08_Idle(t *testing.T) {
+	cov.Rule(c08Rule + " || and again after a fresh process has validated in every language, made no call for 200 s, and validates again (thorough tier only)")
+	var before, after []op
+	for _, l := range allLangs() {
+		il := int64(implLang[l])
+		for k := 0; k < 3; k++ {
+			e := tableEntropiesSmall(int(l)*5 + k + 300)
+			before = append(before, op{Kind: "check", Lang: il, Text: text(ref.Encode(e, l))})
+			e2 := tableEntropiesSmall(int(l)*5 + k + 900)
+			after = append(after, op{Kind: "check", Lang: il, Text: text(ref.Encode(e2, l))}, op{Kind: "encode", Lang: il, Entropy: e2})
+		}
+	}
+	c := &coldCase{History: append(before, op{Kind: "sleep", N: 200}), Probe: after}
+	cov.Eval(len(before) + len(after))
+	cov.Class("idle-period")
+	cov.NonTrivial("c08.idle", []byte("200"))
+	judge(t, "c08.idle", c08IdleCheck, c)
+}
